@@ -9,6 +9,7 @@ mod r_c01;
 mod r_c03;
 mod r_c04;
 mod r_c05;
+mod r_c07;
 mod r_c11;
 mod r_c12;
 mod r_c14;
@@ -80,6 +81,12 @@ fn main() {
     let harness = args[1].clone();
     if harness == "c11_batch" {
         r_c11::batch(&args[2]);
+        return;
+    }
+    if harness.starts_with("c07_") {
+        let vals: Vec<u8> = args[2].split(',').filter_map(|x| x.trim().parse::<u64>().ok()).map(|x| x as u8).collect();
+        let out = r_c07::run(&vals);
+        print(&out, &vals);
         return;
     }
     if harness.starts_with("c19_") {
